@@ -221,7 +221,7 @@ def run(ctx):
     n = 0
     for name, text in model_runs(ctx.quick):
         res = run_cfg(ctx, name, text)
-        for doc in res.printed:
+        for doc in ctx.sample([d for d in res.printed if "fn" in d], 25000):
             if "fn" in doc:
                 n += 1
                 if ctx.quick and n % (4 if name in ("cond3", "delta") else 2):
